@@ -8,7 +8,7 @@ namespace CssVerif.Tok
 open CssVerif CssVerif.Gen.C05
 
 theorem expectedAll_mem : ∀ (ts : List Lex2) (p : String × Cps), p ∈ expectedAll ts →
-    p = ("S", [32]) ∨ ∃ t ∈ ts, p = (t.typ, t.text) := by
+    p = ("S", [32]) ∨ ∃ t ∈ ts, p = (t.typ, t.value) := by
   intro ts
   induction ts with
   | nil => intro p h; simp [expectedAll] at h
@@ -69,6 +69,7 @@ theorem lex2_typ_facts (t : Lex2) (h : t.WF) :
   | urange u h0 hs0 => simp only [Lex2.typ]; exact ⟨by decide, fun e => absurd e (by decide), fun e => absurd e (by decide)⟩
   | cmt body => simp only [Lex2.typ]; exact ⟨by decide, fun e => absurd e (by decide), fun e => absurd e (by decide)⟩
   | cdc => simp only [Lex2.typ]; exact ⟨by decide, fun e => absurd e (by decide), fun e => absurd e (by decide)⟩
+  | strI q its => simp only [Lex2.typ]; exact ⟨by decide, fun e => absurd e (by decide), fun e => absurd e (by decide)⟩
 
 /-- code points of a plain function name with its parenthesis -/
 def fnChars : List (Nat × Nat) := [(40, 40), (45, 45), (48, 57), (65, 90), (95, 95), (97, 122)]
@@ -123,20 +124,20 @@ theorem loop_lexemes2_full (doC : Bool) (ts : List Lex2) (h : ∀ t ∈ ts, t.WF
       | uri e l h1 h2 h3 h4 h5 h6 h7 => rw [hty] at h6; revert h6; decide
       | comment h1 h2 h3 h4 h5 h6 => rw [hty] at h5; revert h5; decide
     · have hty : x.typ = t.typ := congrArg Prod.fst hpt
-      have hval : x.value = t.text := congrArg Prod.snd hpt
+      have hval : x.value = t.value := congrArg Prod.snd hpt
       obtain ⟨f1, f2, f3⟩ := lex2_typ_facts t (h t ht)
       cases hc with
       | string q r h1 h2 h3 h4 h5 => exact f1 (by rw [← hty]; exact h4)
       | uri e l h1 h2 h3 h4 h5 h6 h7 =>
         obtain ⟨c, cs, rfl⟩ := f2 (by rw [← hty]; exact h6)
         have hwf := h _ ht
-        rw [hfx, hval] at h7
+        rw [hfx (by rw [h6]; decide), hval] at h7
         exact fn_not_url c cs hwf.1 hwf.2.1 h7
       | comment h1 h2 h3 h4 h5 h6 =>
         obtain ⟨c, rfl⟩ := f3 (by rw [← hty]; exact h5)
         have hwf : fastChars.contains c = true := h _ ht
         rw [hval] at h6
-        simp only [Lex2.text, Lex.text, List.cons.injEq, and_true] at h6
+        simp only [Lex2.value, Lex2.text, Lex.text, List.cons.injEq, and_true] at h6
         rw [h6] at hwf
         revert hwf; decide
 
